@@ -489,7 +489,10 @@ class StmtMixin:
                 if spec.hints:
                     vv = Vars(o.state.env)
                     vv.head = Vars(head_env)
-                    hs_ = [h(Ctx(self, o.state, self.entry_state), k, vv) for h in spec.hints]
+                    hs_ = []
+                    for h in spec.hints:
+                        r_ = h(Ctx(self, o.state, self.entry_state), k, vv)
+                        hs_.extend(r_ if isinstance(r_, (list, tuple)) else [r_])
                     self.emit_with_hints("inv.step", spec.label, o.state, inv_at(o.state, k + 1), hs_)
                 else:
                     self.emit("inv.step", spec.label, o.state, inv_at(o.state, k + 1))
